@@ -409,7 +409,17 @@ fn direct_list(rng: &mut Rng, cfg: &GenCfg) -> Vec<Stmt> {
     let mut sub = rng.fork();
     let mut g = Gen::new(&mut sub, cfg.clone());
     let mut out: Vec<Stmt> = vec![];
-    match rng.below(5) {
+    match rng.below(6) {
+        5 => {
+            // lists that compile to no code at all
+            return match rng.below(5) {
+                0 => vec![Stmt::Rem("nothing".into(), false)],
+                1 => vec![Stmt::Rem("tick".into(), true)],
+                2 => vec![Stmt::Raw(":".into())],
+                3 => vec![Stmt::Raw(":".into()), Stmt::Rem("x".into(), false)],
+                _ => vec![Stmt::Rem(String::new(), false)],
+            };
+        }
         0 => {
             // FOR ... NEXT on one line
             out.push(Stmt::For {
@@ -485,7 +495,30 @@ impl Property for C20 {
             cfg.rems = false;
             cfg.stop = false;
             cfg.end_mid = false;
-            let prog = gen_program(rng, cfg);
+            let mut prog = gen_program(rng, cfg);
+            if rng.pct(25) && !prog.lines.is_empty() {
+                // the first line of the program (line 0 under some layouts) as a branch target:
+                // a second pass through the whole program
+                let last = prog.lines.last().map(|l| l.num).unwrap_or(0);
+                if last < 65000 {
+                    prog.lines.push(Line {
+                        num: last + 5,
+                        stmts: vec![Stmt::If {
+                            cond: Expr::bin(BinOp::Eq, Expr::var("C0%"), Expr::Int(0)),
+                            goto_form: false,
+                            then: Branch::Stmts(vec![
+                                Stmt::Let {
+                                    kw: false,
+                                    target: LVal::scalar("C0%"),
+                                    expr: Expr::Int(1),
+                                },
+                                if rng.pct(50) { Stmt::Goto(Target::L(0)) } else { Stmt::Gosub(Target::L(0)) },
+                            ]),
+                            els: None,
+                        }],
+                    });
+                }
+            }
             let mut r = Ref::new(&prog);
             r.auto_reply = Some(rng.fork());
             r.max_steps = 4000;
